@@ -37,6 +37,7 @@ TreeVal(r) ==
   CASE n = "vabs" -> VAbsent
     [] n = "vmulti" -> VMulti(<<"1", "x", " 2.5 ">>)
     [] n = "vm2" -> VMulti(<<"", "7">>)
+    [] n = "vone" -> VMulti(<<"0">>)          \* a leaf-list with a single entry
     [] n = "vempty" -> VS("")
     [] n = "vnum" -> VS("12")
     [] n = "vneg" -> VS(" -1.5 ")
@@ -98,7 +99,7 @@ InsS(i, s) == [i |-> i, s |-> s, n |-> Zero(FALSE)]
 InsN(i, n) == [i |-> i, s |-> "", n |-> n]
 OpIns(op) == CASE op = "+" -> "add" [] op = "-" -> "sub" [] op = "*" -> "mul" [] op = "div" -> "div" [] op = "mod" -> "mod"
                [] op = "=" -> "eq" [] op = "!=" -> "ne" [] op = "<" -> "lt" [] op = "<=" -> "le" [] op = ">" -> "gt" [] op = ">=" -> "ge"
-               [] op = "and" -> "and" [] op = "or" -> "or"
+               [] op = "and" -> "and" [] op = "or" -> "or" [] op = "|" -> "union"
 RECURSIVE Comp(_), CompPathBody(_), CompSteps(_), CompPreds(_)
 CompPreds(ps) == IF ps = << >> THEN << >>
    ELSE <<Ins("PREDSTART"), InsS("name", ps[1].key), Ins("evalLocPath")>> \o Comp(ps[1].opnd)
@@ -124,9 +125,9 @@ Comp(e) ==
 Compile(e) == Comp(e) \o <<Ins("store")>>
 
 \* -------------------------------------------------------------------- rendering
-\* precedence: or 1 < and 2 < equality 3 < relational 4 < additive 5 < multiplicative 6 < unary 7 < primary/path 9
+\* precedence: or 1 < and 2 < equality 3 < relational 4 < additive 5 < multiplicative 6 < unary 7 < union 8 < primary/path 9
 Level(e) == IF e.k = "bin" THEN (CASE e.op = "or" -> 1 [] e.op = "and" -> 2 [] e.op \in {"=", "!="} -> 3
-                                   [] e.op \in {"<", "<=", ">", ">="} -> 4 [] e.op \in {"+", "-"} -> 5 [] OTHER -> 6)
+                                   [] e.op \in {"<", "<=", ">", ">="} -> 4 [] e.op \in {"+", "-"} -> 5 [] e.op = "|" -> 8 [] OTHER -> 6)
             ELSE IF e.k = "neg" THEN 7 ELSE 9
 RECURSIVE Toks(_, _), PathToks(_, _), StepsToks(_, _), PredToks(_, _)
 Paren(ts) == <<"(">> \o ts \o <<")">>
